@@ -23,7 +23,7 @@ func verifC02DataV(name string, specialValues bool) *verifData {
 	// themselves get these wrong)
 	avals := []string{"a1", "a0"}
 	if specialValues {
-		avals = [][]string{{"a1", "a0"}, {"a\t", "a"}, {"a", "a\xff"}}[verifChoice("a-values", 3)]
+		avals = [][]string{{"a1", "a0"}, {"a\t", "a"}, {"a", "a\xff"}, {"7", "07"}}[verifChoice("a-values", 4)] // last: two spellings of one number (byte-wise order, not numeric)
 	}
 	d := verifNewDataN(name, []string{"a", "b", "r"}, [][]string{avals, {"b1", "b2", "b0"}, {"r0"}}, 64)
 	d.build()
